@@ -50,7 +50,7 @@ type Config struct {
 
 func run(cfg *Config, src string) *luagen.Outcome {
 	if cfg.Isolate {
-		return luagen.RunIsolated(src, 20*time.Second)
+		return luagen.RunIsolated(src, 20*time.Second, cfg.RunOptions)
 	}
 	return luagen.Run(src, cfg.RunOptions)
 }
@@ -70,6 +70,12 @@ func gen(cfg *Config, seed uint64, idx int) ([]luagen.Stmt, Mode, *luagen.Gen) {
 	m := modeOf(cfg, r)
 	g := luagen.NewGen(r, m.Features)
 	return g.Program(), m, g
+}
+
+// Gen exposes the generator to property-specific Extra functions.
+func Gen(cfg *Config, seed uint64, idx int) ([]luagen.Stmt, string) {
+	prog, m, _ := gen(cfg, seed, idx)
+	return prog, m.Name
 }
 
 func runOne(cfg *Config, w *lib.Writer, seed uint64, idx int) {
